@@ -28,6 +28,14 @@ CHECKS = {
              "Complete for the finite grammar enumerated (thorough: full cross product).",
         note="trusts rustc's improper_ctypes lint, the type checker, and the driver's fact printing; traits outside the corpus grammar are not covered",
         ref="4 C03"),
+    "C05": dict(
+        cat="other",
+        technique="who-may-call rule over resolved callees: reclaim/rematerialise/grow primitives only in functions captured into *_fn slots at creation (extern \"C\", own T), unsafe same-module fns called only from generated extern \"C\" wrappers, or private helpers of captured functions",
+        text="decides clause (b) `memory is always released/grown by the module that allocated it` as a layering rule on the source; clause (a) `every cross-module "
+             "representation is layout-defined` is decided by C03/C04/C16. Clause (c), equal observable results across {stable,nightly} x {debug,release} x layout seeds "
+             "x allocators, is a statement about builds and is NOT decided -- it is argued from (a)+(b).",
+        note="partial claim: clauses (a) by reference and (b) here; (c) undecided. ReprCString (not named by C05) frees with the dropping module's allocator: noted only",
+        ref="4 C05"),
     "C06": dict(
         cat="other",
         technique="ownership ledger: resolved-callee table of ownership-bypassing primitives, per-path net effect, constructor<->stored-destructor pairing by pointee type, who-may-call on destructor slots, pure-move rules for casts/opaque conversion",
